@@ -71,12 +71,22 @@ class HoloPyObject(Serializable):
         return dict(self._iteritems())
 
     def _iteritems(self):
+        init = self.__init__
+        argnames = init.__code__.co_varnames[1:init.__code__.co_argcount]
+        argdefaults = init.__defaults__ or ()
+        defaults = dict(zip(argnames[len(argnames) - len(argdefaults):],
+                            argdefaults))
         for var in self.__init__.__code__.co_varnames[1:]:
             if getattr(self, var, None) is not None:
                 item = getattr(self, var)
                 if isinstance(item, np.ndarray) and item.ndim == 1:
                     item = list(item)
                 yield var, item
+            elif (hasattr(self, var) and var in defaults
+                    and defaults[var] is not None):
+                # an argument explicitly set to None whose default is not
+                # None must be written, or it reloads as the default
+                yield var, None
 
     @classmethod
     def to_yaml(cls, dumper, data):
